@@ -388,30 +388,74 @@ UNLOCKED_OK = {"size": "unlocked read used only as a work-stealing heuristic (Sc
 
 def check_task_queue(chk, lib):
     fns = [d for d in lib.decls if d["kind"] == "function" and d.get("clsq") == "TaskQueue"
-           and not d.get("ctor") and not d.get("dtor")]
+           and not d.get("ctor") and not d.get("dtor") and d.get("body")]
     if len(fns) < 5:
         raise AnalysisBroken("TaskQueue methods not found")
-    n = 0
+    byname = {}
     for fn in fns:
-        chk.analysed(function=fn["full"])
-        if fn["name"] in UNLOCKED_OK:
-            chk.ok("Q1", "%s is exempt: %s" % (fn["full"], UNLOCKED_OK[fn["name"]]), where(fn))
-            continue
+        byname.setdefault(fn["full"].split("(")[0], fn)
+    n = 0
+
+    def lock_event(e):
+        e = C.strip_casts(e)
+        if C.is_call(e) and C.member_name(e.get("obj")) == "_queue_lock":
+            return e.get("n")
+        return None
+
+    def helper_calls(body):
+        """Calls to other TaskQueue methods on this object (implicit or explicit this)."""
+        out = []
+        for x in C.walk(body):
+            if x.get("k") == "Call" and (x.get("fn") or "").startswith("TaskQueue::") and \
+                    (x.get("obj") is None or C.strip_casts(x["obj"]).get("k") == "This"):
+                out.append(x)
+        return out
+
+    # helpers: TaskQueue methods that other TaskQueue methods call on the same object
+    called = set()
+    for fn in fns:
+        for s2 in C.walk_stmt(fn["body"]):
+            if s2.get("k") in ("Block", "If", "For", "While", "Do", "ForRange", "Switch"):
+                continue
+            bodies = [d["init"] for d in s2["d"] if d.get("init") is not None] if s2.get("k") == "Decl" else [s2]
+            for b2 in bodies:
+                for x in helper_calls(b2):
+                    called.add(x["fn"])
+    helpers = {fn["full"]: fn for fn in fns if fn["full"].split("(")[0] in called and fn.get("access") == "private"}
+    if not helpers:
+        helpers = {fn["full"]: fn for fn in fns if fn["full"].split("(")[0] in called and
+                   not any(lock_event(x) for s2 in C.walk_stmt(fn["body"]) for x in
+                           (C.walk(s2) if s2.get("k") not in ("Block", "If", "For", "While", "Do", "ForRange", "Switch", "Decl")
+                            else ()))}
+    touches = {}      # helper qname -> touches protected state (directly)
+    for hq, h in helpers.items():
+        touches[hq.split("(")[0]] = any(x.get("k") == "Mem" and x.get("n") in PROTECTED and
+                                        C.strip_casts(x["b"]).get("k") == "This"
+                                        for s2 in C.walk_stmt(h["body"]) for x in
+                                        (C.walk(s2) if s2.get("k") not in ("Block", "If", "For", "While", "Do", "ForRange",
+                                                                          "Switch", "Decl")
+                                         else [y for d in s2.get("d", []) if d.get("init") is not None for y in C.walk(d["init"])]))
+    entry_states = {hq: set() for hq in helpers}
+
+    def analyse(fn, init_states, is_helper):
+        nonlocal n
         g = C.CFG(fn)
 
-        def lock_event(e):
-            e = C.strip_casts(e)
-            if C.is_call(e) and C.member_name(e.get("obj")) == "_queue_lock":
-                return e.get("n")
-            return None
+        def node_body(node):
+            if node.ast is None or node.kind == "marker" or node.ast.get("k") in ("Abort", "RangeHasNext"):
+                return None
+            return node.ast if node.kind != "decl" else {"k": "Decl", "d": node.ast["d"]}
 
         def accesses(node):
-            if node.ast is None or node.kind == "marker" or node.ast.get("k") in ("Abort", "RangeHasNext"):
+            body = node_body(node)
+            if body is None:
                 return []
-            body = node.ast if node.kind != "decl" else {"k": "Decl", "d": node.ast["d"]}
-            return [x for x in C.walk(body) if x.get("k") == "Mem" and x.get("n") in PROTECTED and
-                    C.strip_casts(x["b"]).get("k") == "This"]
-
+            acc = [x for x in C.walk(body) if x.get("k") == "Mem" and x.get("n") in PROTECTED and
+                   C.strip_casts(x["b"]).get("k") == "This"]
+            for x in helper_calls(body):
+                if touches.get(x["fn"]):
+                    acc.append({"k": "Mem", "n": "%s()" % x["fn"].split("::")[-1], "l": x.get("l")})
+            return acc
         bad = []
 
         def tr(node, st):
@@ -432,32 +476,102 @@ def check_task_queue(chk, lib):
                         if not held:
                             bad.append(("unlock without holding the lock", x))
                         held = False
+                for x in helper_calls(body):
+                    for hq in helpers:
+                        if hq.split("(")[0] == x["fn"]:
+                            entry_states[hq].add(held)
             return [(None, held)]
-        ex = C.explore(g, False, tr)
-        for node in g.nodes:
-            acc = accesses(node)
-            if not acc:
-                continue
-            for st in ex.at.get(node.id, ()):
-                n += 1
-                chk.require(st is True, "Q1", "%s touches %s with the queue lock held (line %s)" %
-                            (fn["full"], sorted({a["n"] for a in acc}), node.line()), where(acc[0], fn),
-                            "queue state is accessed on a path (lines %s) on which _queue_lock is not held" %
-                            ex.path_lines(node.id, st), function=fn["full"],
-                            construct="unlocked access %s" % sorted({a["n"] for a in acc})[0])
-        n += 1
-        chk.require(ex.at.get(g.exit.id, {False}) == {False} and not bad, "Q2",
-                    "%s releases the queue lock exactly once on every path" % fn["full"], where(fn),
-                    "lock state at exit %s; protocol errors: %s" % (sorted(ex.at.get(g.exit.id, [])),
-                                                                     [b[0] for b in bad]),
-                    function=fn["full"], construct="queue lock release")
+        exits = set()
+        for st0 in sorted(init_states):
+            ex = C.explore(g, st0, tr)
+            for node in g.nodes:
+                acc = accesses(node)
+                if not acc:
+                    continue
+                for st in ex.at.get(node.id, ()):
+                    n += 1
+                    chk.require(st is True, "Q1", "%s touches %s with the queue lock held (line %s)" %
+                                (fn["full"], sorted({a["n"] for a in acc}), node.line()), where(acc[0], fn),
+                                "queue state is accessed on a path (lines %s) on which _queue_lock is not held%s" %
+                                (ex.path_lines(node.id, st), " (the helper is entered without the lock from one of its callers)"
+                                 if is_helper else ""), function=fn["full"],
+                                construct="unlocked access %s" % sorted({a["n"] for a in acc})[0])
+            ends = set(ex.at.get(g.exit.id, ()))
+            n += 1
+            want = {st0} if is_helper else {False}
+            chk.require((ends or want) == want and not bad, "Q2",
+                        ("%s leaves the queue lock as it found it" if is_helper else
+                         "%s releases the queue lock exactly once on every path") % fn["full"], where(fn),
+                        "lock state at exit %s; protocol errors: %s" % (sorted(ends), [b2[0] for b2 in bad]),
+                        function=fn["full"], construct="queue lock release")
+
+    for fn in fns:
+        chk.analysed(function=fn["full"])
+        if fn["full"] in helpers:
+            continue
+        if fn["name"] in UNLOCKED_OK:
+            chk.ok("Q1", "%s is exempt: %s" % (fn["full"], UNLOCKED_OK[fn["name"]]), where(fn))
+            continue
+        analyse(fn, {False}, False)
+    for hq, h in helpers.items():
+        if not entry_states[hq]:
+            entry_states[hq].add(False)
+        analyse(h, entry_states[hq], True)
+    for fn in fns:
         if fn["name"] in ("get_task", "try_get_task"):
-            n += check_handout(chk, fn)
+            n += check_handout(chk, fn, helpers)
     chk.floor("Q", n, 20)
 
 
-def check_handout(chk, fn):
+def check_handout(chk, fn, helpers=None):
     """Q3: the index returned was confirmed by lock_dependency() and leaves the live range."""
+    def has_confirm(f):
+        return any(C.is_call(x, name="lock_dependency") for s2 in C.walk_stmt(f["body"]) for x in
+                   (C.walk(s2) if s2.get("k") not in ("Block", "If", "For", "While", "Do", "ForRange", "Switch", "Decl")
+                    else [y for d in s2.get("d", []) if d.get("init") is not None for y in C.walk(d["init"])]))
+    if not has_confirm(fn) and helpers:
+        # the scan lives in a helper: the function must hand out exactly what the helper returns
+        g0 = C.CFG(fn)
+        rets0 = [nd for nd in g0.nodes if nd.kind == "return"]
+        srcs = []
+        for s2 in C.walk_stmt(fn["body"]):
+            exprs = [(d, d["init"]) for d in s2["d"] if d.get("init") is not None] if s2.get("k") == "Decl" else \
+                ([(None, s2)] if s2.get("k") in ("Bin", "Return") else [])
+            for d, e2 in exprs:
+                for x in C.walk(e2 if e2.get("k") != "Return" else (e2.get("x") or {})):
+                    if x.get("k") == "Call" and any(hq.split("(")[0] == x.get("fn") for hq in helpers):
+                        srcs.append((d, e2, x))
+        hs = {x["fn"] for _, _, x in srcs}
+        if len(hs) != 1 or not rets0:
+            raise AnalysisBroken("%s: neither scans the queue itself nor returns the result of one helper" % fn["full"])
+        helper = [h for hq, h in helpers.items() if hq.split("(")[0] == list(hs)[0]][0]
+        holders = set()
+        for d, e2, x in srcs:
+            if d is not None:
+                holders.add(("local", d["id"], d["n"]))
+            elif e2.get("k") == "Bin" and e2["op"] == "=":
+                holders.add(C.ref_key(e2["a"]))
+        # other assignments to the holder variables: only constants (the NO_TASK initial value)
+        okf = True
+        why = ""
+        for s2 in C.walk_stmt(fn["body"]):
+            if s2.get("k") == "Bin" and s2["op"] == "=" and C.ref_key(s2["a"]) in holders:
+                r0 = C.strip_casts(s2["b"])
+                if not (any(y is x for _, _, x in srcs for y in C.walk(s2["b"])) or C.const_int(r0) is not None):
+                    okf = False
+                    why = "`%s` is also assigned `%s`" % (C.pretty(s2["a"]), C.pretty(r0))
+        for r in rets0:
+            e3 = C.strip_casts(r.ast.get("x"))
+            if e3 is None:
+                continue
+            if C.const_int(e3) is not None or C.ref_key(e3) in holders or any(e3 is x for _, _, x in srcs):
+                continue
+            okf = False
+            why = "a return hands out `%s`" % C.pretty(e3)
+        chk.require(okf, "Q3", "%s hands out exactly what %s returned (or the no-task constant)" % (fn["full"], helper["name"]),
+                    where(fn), why or "the value returned is not the helper's result", function=fn["full"],
+                    construct="hand-out via helper")
+        return 1 + check_handout(chk, helper, None)
     g = C.CFG(fn)
     ret_nodes = [nd for nd in g.nodes if nd.kind == "return"]
     if len(ret_nodes) != 1:
@@ -475,16 +589,61 @@ def check_handout(chk, fn):
                 return C.ref_key(i["a"]), C.const_int(i["b"]) * (1 if i["op"] == "+" else -1)
         return None
 
+    elem_alias = {}      # local id -> (index var key, offset): const local initialised from _queue[index + k]
+    for s2 in C.walk_stmt(fn["body"]):
+        if s2.get("k") == "Decl":
+            for d in s2["d"]:
+                if d.get("init") is not None and queue_elem_offset(d["init"]) is not None and \
+                        (d.get("t") or "").startswith("const "):
+                    elem_alias[d["id"]] = queue_elem_offset(d["init"])
+
     def confirm_target(e):
         e = C.strip_casts(e)
         if C.is_call(e, name="lock_dependency", cls="Task") and e.get("obj") is not None:
             o = C.strip_casts(e["obj"])
             if C.is_call(o) and o.get("op") == "[]" and o["a"]:
+                a0 = C.strip_casts(o["a"][0])
+                if a0.get("k") == "Ref" and a0.get("id") in elem_alias:
+                    return ("alias", a0["id"])
                 return queue_elem_offset(o["a"][0])
         return None
 
     def tr(node, st):
         conf, handed, removed, memo = st    # conf: (index var, offset) with locked dependencies
+        if node.kind == "decl" and conf and conf[0] == "alias" and not handed and \
+                any(d["id"] == conf[1] for d in node.ast["d"]):
+            conf = None          # the alias is re-declared: it names another queue element now
+            st = (conf, handed, removed, memo)
+        # a boolean local that receives the result of lock_dependency(): fork on the outcome, remember it in the memo
+        if node.kind in ("stmt", "decl") and node.ast.get("k") != "Abort":
+            pairs = []
+            if node.kind == "decl":
+                pairs = [(("local", d["id"], d["n"]), d["init"]) for d in node.ast["d"] if d.get("init") is not None]
+            elif node.ast.get("k") == "Bin" and node.ast["op"] == "=":
+                pairs = [(C.ref_key(node.ast["a"]), node.ast["b"])]
+            for tgt, rhs in pairs:
+                r0 = C.strip_casts(rhs)
+                if r0.get("k") == "Bool" and tgt is not None and tgt[0] == "local":
+                    m = dict((k, v) for k, v in memo if k != tgt[2])
+                    m[tgt[2]] = bool(r0["v"])
+                    memo = tuple(sorted(m.items()))
+                    st = (conf, handed, removed, memo)
+                    continue
+                t = confirm_target(rhs)
+                if t is not None and tgt is not None and tgt[0] == "local":
+                    key = tgt[2]
+                    m = dict((k, v) for k, v in memo if k != key)
+                    mt, mf = dict(m), dict(m)
+                    mt[key], mf[key] = True, False
+                    return [(None, (t, handed, removed, tuple(sorted(mt.items())))),
+                            (None, (None, handed, removed, tuple(sorted(mf.items()))))]
+        if node.kind == "branch":
+            e0 = C.strip_casts(node.ast)
+            if e0.get("k") == "Ref" and e0.get("n") in dict(memo) and isinstance(dict(memo)[e0["n"]], bool):
+                return [(dict(memo)[e0["n"]], st)]
+            if e0.get("k") == "Ref" and (e0.get("t") or "").replace("const ", "") == "bool" and "id" in e0:
+                # a flag initialised from a literal: remember its value once tested
+                pass
         # memo: outcome of the last evaluation of a comparison whose variables did not change since
         # (the loop exit test `index > 0` and the following `if (index > 0)` are the same predicate)
         def pack(conf, handed, removed, memo):
@@ -519,13 +678,20 @@ def check_handout(chk, fn):
             for x in C.walk(body):
                 if x.get("k") == "Un" and x["op"] in ("pre--", "post--", "pre++", "post++"):
                     kk = C.ref_key(x["x"])
-                    if conf and kk == conf[0] and not handed:
+                    if conf and conf[0] != "alias" and kk == conf[0] and not handed:
                         conf = (conf[0], conf[1] + (1 if "--" in x["op"] else -1))
+                    elif conf and conf[0] == "alias" and not handed and kk == elem_alias[conf[1]][0]:
+                        # the index moved: the alias was taken at the old position and stays the confirmed element only
+                        # until it is re-declared (next iteration)
+                        pass
                     if C.member_name(x["x"]) == "_current_queue_size" and "--" in x["op"]:
                         removed = min(2, removed + 1)
                 if x.get("k") == "Bin" and x["op"] == "=":
                     if C.ref_key(x["a"]) == rv:
                         t = queue_elem_offset(x["b"])
+                        b0 = C.strip_casts(x["b"])
+                        if b0.get("k") == "Ref" and b0.get("id") in elem_alias:
+                            t = ("alias", b0["id"])
                         if t is not None and conf is not None and t == conf:
                             handed = "ok"
                         else:
@@ -560,14 +726,35 @@ def check_lock_dependency(chk, lib):
     chk.analysed(function=fn["full"])
     g = C.CFG(fn)
 
+    # local pointer aliases of the dependencies: ThreadLock *const first = _dependency[0];
+    alias = {}
+    for s2 in C.walk_stmt(fn["body"]):
+        if s2.get("k") == "Decl":
+            for d in s2["d"]:
+                i0 = C.strip_casts(d["init"]) if d.get("init") is not None else None
+                if i0 is not None and i0.get("k") == "Idx" and C.member_name(i0["a"]) == "_dependency" and \
+                        C.const_int(i0["i"]) is not None:
+                    alias[d["id"]] = C.const_int(i0["i"])
+
     def dep_index(e):
         e = C.strip_casts(e)
         if e is not None and e.get("k") == "Idx" and C.member_name(e["a"]) == "_dependency":
             return C.const_int(e["i"])
+        if e is not None and e.get("k") == "Ref" and e.get("id") in alias:
+            return alias[e["id"]]
+        return None
+
+    def pack(nn, held, bv):
+        return (tuple(sorted(nn.items())), tuple(sorted(held.items())), tuple(sorted(bv.items())))
+
+    def trylock_of(e):
+        e = C.strip_casts(e)
+        if e is not None and C.is_call(e, name="try_lock") and e.get("obj") is not None:
+            return dep_index(e["obj"])
         return None
 
     def tr(node, st):
-        nn, held = dict(st[0]), dict(st[1])
+        nn, held, bv = dict(st[0]), dict(st[1]), dict(st[2])
         if node.kind == "branch":
             e = C.strip_casts(node.ast)
             if e.get("k") == "Bin" and e["op"] in ("!=", "=="):
@@ -577,14 +764,40 @@ def check_lock_dependency(chk, lib):
                         t, f = dict(nn), dict(nn)
                         t[i] = (e["op"] == "!=")
                         f[i] = (e["op"] == "==")
-                        return [(True, (tuple(sorted(t.items())), tuple(sorted(held.items())))),
-                                (False, (tuple(sorted(f.items())), tuple(sorted(held.items()))))]
-            if C.is_call(e, name="try_lock") and e.get("obj") is not None:
-                i = dep_index(e["obj"])
+                        outs = []
+                        if nn.get(i) in (None, t[i]):
+                            outs.append((True, pack(t, held, bv)))
+                        if nn.get(i) in (None, f[i]):
+                            outs.append((False, pack(f, held, bv)))
+                        return outs
+            i = trylock_of(e)
+            if i is not None:
+                t = dict(held)
+                t[i] = True
+                return [(True, pack(nn, t, bv)), (False, st)]
+            if e.get("k") == "Ref" and e.get("id") in bv:
+                return [(bv[e["id"]], st)]
+            if e.get("k") == "Ref" and dep_index(e) is not None:
+                i = dep_index(e)
+                t, f = dict(nn), dict(nn)
+                t[i], f[i] = True, False
+                return [(True, pack(t, held, bv)), (False, pack(f, held, bv))]
+        if node.kind == "decl":
+            outs = [(nn, held, bv)]
+            for d in node.ast["d"]:
+                i = trylock_of(d.get("init")) if d.get("init") is not None else None
                 if i is not None:
-                    t = dict(held)
-                    t[i] = True
-                    return [(True, (st[0], tuple(sorted(t.items())))), (False, st)]
+                    new = []
+                    for nn1, held1, bv1 in outs:
+                        h2, b2 = dict(held1), dict(bv1)
+                        h2[i] = True
+                        b2[d["id"]] = True
+                        new.append((nn1, h2, b2))
+                        b3 = dict(bv1)
+                        b3[d["id"]] = False
+                        new.append((nn1, dict(held1), b3))
+                    outs = new
+            return [(None, pack(a1, b1, c1)) for a1, b1, c1 in outs]
         if node.kind == "stmt" and node.ast.get("k") != "Abort":
             for x in C.walk(node.ast):
                 if C.is_call(x, name="unlock") and x.get("obj") is not None:
@@ -593,30 +806,43 @@ def check_lock_dependency(chk, lib):
                         held[i] = False
                 if C.is_call(x, name="lock") and x.get("obj") is not None and dep_index(x["obj"]) is not None:
                     held[dep_index(x["obj"])] = True
-        return [(None, (tuple(sorted(nn.items())), tuple(sorted(held.items()))))]
-    ex = C.explore(g, ((), ()), tr)
+        return [(None, pack(nn, held, bv))]
+    ex = C.explore(g, ((), (), ()), tr)
     for node in g.nodes:
         if node.kind != "return":
             continue
-        val = C.const_int(node.ast["x"])
+        rx = C.strip_casts(node.ast["x"])
         for st in ex.at.get(node.id, ()):
-            nn, held = dict(st[0]), dict(st[1])
-            n += 1
-            if val == 1:
-                okk = all(held.get(i, False) for i in (0, 1) if nn.get(i) is True) and \
-                    not (nn.get(0) is True and nn.get(1) is None)
-                chk.require(okk, "L1", "Task::lock_dependency returns true with every non-null dependency held",
-                            where(node.ast, fn), "returns true with dependencies non-null=%s held=%s (path %s)" %
-                            (nn, held, ex.path_lines(node.id, st)), function=fn["full"], construct="true lockset")
-            elif val == 0:
-                okk = not any(held.values())
-                chk.require(okk, "L1", "Task::lock_dependency returns false holding nothing (rollback)",
-                            where(node.ast, fn), "returns false while still holding %s (path %s): the subgrid stays "
-                            "locked for ever" % ([i for i, h in held.items() if h], ex.path_lines(node.id, st)),
-                            function=fn["full"], construct="false lockset")
+            nn, held, bv = dict(st[0]), dict(st[1]), dict(st[2])
+            val = C.const_int(rx)
+            if val is None and rx.get("k") == "Ref" and rx.get("id") in bv:
+                val = int(bv[rx["id"]])
+            if val is None and trylock_of(rx) is not None:
+                # `return x->try_lock();`: both outcomes
+                i = trylock_of(rx)
+                h2 = dict(held)
+                h2[i] = True
+                cases = [(1, nn, h2), (0, nn, held)]
             else:
-                chk.fail("L1", "Task::lock_dependency returns a constant", where(node.ast, fn),
-                         "return value is not a boolean literal", function=fn["full"], construct="return literal")
+                cases = [(val, nn, held)]
+            for val, nn, held in cases:
+                n += 1
+                if val == 1:
+                    okk = all(held.get(i, False) for i in (0, 1) if nn.get(i) is True) and \
+                        not (nn.get(0) is True and nn.get(1) is None)
+                    chk.require(okk, "L1", "Task::lock_dependency returns true with every non-null dependency held",
+                                where(node.ast, fn), "returns true with dependencies non-null=%s held=%s (path %s)" %
+                                (nn, held, ex.path_lines(node.id, st)), function=fn["full"], construct="true lockset")
+                elif val == 0:
+                    okk = not any(held.values())
+                    chk.require(okk, "L1", "Task::lock_dependency returns false holding nothing (rollback)",
+                                where(node.ast, fn), "returns false while still holding %s (path %s): the subgrid stays "
+                                "locked for ever" % ([i for i, h in held.items() if h], ex.path_lines(node.id, st)),
+                                function=fn["full"], construct="false lockset")
+                else:
+                    chk.fail("L1", "Task::lock_dependency returns a value the lockset analysis can follow", where(node.ast, fn),
+                             "return value `%s` is neither a literal, nor a try_lock() result, nor a flag holding one" %
+                             C.pretty(rx), function=fn["full"], construct="return literal")
     fn = fns["unlock_dependency"]
     chk.analysed(function=fn["full"])
     g = C.CFG(fn)
